@@ -136,6 +136,7 @@ def check (pid : String) (j : Json) : Except String Verdict := do
   let mut evicts : List (Nat × String) := []
   let mut forced : List Nat := []
   let mut inSelect : List Nat := []                 -- threads released into the select and not yet out of it
+  let mut early : Option String := none             -- a fetch timeout that fired before its time
   for e in tr.toList do
     idx := idx + 1
     let kind := jStrD e "s" "?"
@@ -163,7 +164,13 @@ def check (pid : String) (j : Json) : Except String Verdict := do
       | 2 =>
         -- entering the select; it may come out at once
         if at_ = 3 then r := r.step V tn (.getWake i) s!"wake {i} (on entering the select)"
-        else if at_ = 4 then r := r.step V tn (.getDeadline i) s!"deadline {i} (on entering the select)"
+        else if at_ = 4 then
+          r := r.step V tn (.getDeadline i) s!"deadline {i} (on entering the select)"
+          -- nobody cancelled this lookup: the arm that fired is its fetch timeout; it cannot fire before that time has passed
+          let ftMs := jNatD sc "ftMs" 0
+          let el := jNatD e "elapsedMs" 0
+          if ftMs > 0 && !(deadlineAt.any (fun d => d.1 = i)) && 2 * el < ftMs && early.isNone then
+            early := some s!"lookup {i} of {tn i}: the deadline arm fired {el} ms after the lookup started, the fetch timeout is {ftMs} ms and nobody cancelled it: a spurious time-out (the resource accepted before the real deadline is never returned to it)"
         else
           inSelect := inSelect ++ [i]
           -- still in the select: the model must not have a closed notifier for it
@@ -263,6 +270,8 @@ def check (pid : String) (j : Json) : Except String Verdict := do
         if !current then sf := some s!"C07.linearizable: lookup {t} of {n} returned {v}, which was not current at any point between its start and its return"
       else if res = "err:timeout" then
         if dl.isNone && !forced.contains t then sf := some s!"C07: lookup {t} reported a timeout although its deadline never fired"
+  if sf.isNone then
+    sf := early.map (fun m => s!"{if pid = "C05" then "C05.deadline_bounded" else if pid = "C06" then "C06.no_lost_wakeup" else "C07.real_time_order"}: {m}")
   let nt := delivers.any (fun (d, _) => startAt.any (fun (t, s) => s < d && doneAt.any (fun (t', e, _) => t' = t && d < e)))
   return { nontrivial := nt, mismatch := r.mismatch, specfail := sf }
 
